@@ -892,7 +892,7 @@ impl<'a> Runtime<'a> {
             }
             GlobalBuiltin::Command => {
                 let Value::Str(program) = &arg_values[0] else {
-                    unreachable!("Semantic analysis guarantees string arg")
+                    return Err(RuntimeError::new(RuntimeErrorKind::TypeMismatch, span));
                 };
                 Ok(Value::Host(HostHandle::new_in(
                     self.frame,
@@ -914,18 +914,23 @@ impl<'a> Runtime<'a> {
         if let Some(array_builtin) = ArrayBuiltin::from_name(field)
             && array_builtin.requires_mut_receiver()
         {
+            Self::check_method_arity(&array_builtin, args, span)?;
             return self.eval_array_member_call_mut(object, array_builtin, field, args, span);
         }
         if let Some(command_builtin) = ProcessCommandBuiltin::from_name(field)
             && command_builtin.requires_mut_receiver()
         {
+            Self::check_method_arity(&command_builtin, args, span)?;
             return self.eval_process_command_call_mut(object, command_builtin, field, args, span);
         }
 
         let receiver = self.eval_expr(object)?;
         match receiver {
             Value::Str(ref s) => match StringBuiltin::from_name(field) {
-                Some(..) => self.eval_string_member_call(s, field, args),
+                Some(builtin) => {
+                    Self::check_method_arity(&builtin, args, span)?;
+                    self.eval_string_member_call(s, field, args)
+                }
                 None => Err(RuntimeError::new_with_extras(
                     RuntimeErrorKind::TypeMismatch,
                     span,
@@ -934,7 +939,10 @@ impl<'a> Runtime<'a> {
                 )),
             },
             Value::Number(n) => match NumberBuiltin::from_name(field) {
-                Some(..) => Ok(Self::eval_number_member_call(n, field)),
+                Some(builtin) => {
+                    Self::check_method_arity(&builtin, args, span)?;
+                    Ok(Self::eval_number_member_call(n, field))
+                }
                 None => Err(RuntimeError::new_with_extras(
                     RuntimeErrorKind::TypeMismatch,
                     span,
@@ -943,7 +951,10 @@ impl<'a> Runtime<'a> {
                 )),
             },
             Value::Array(ref arr) => match ArrayBuiltin::from_name(field) {
-                Some(..) => self.eval_array_member_call(arr, field, args),
+                Some(builtin) => {
+                    Self::check_method_arity(&builtin, args, span)?;
+                    self.eval_array_member_call(arr, field, args)
+                }
                 None => Err(RuntimeError::new_with_extras(
                     RuntimeErrorKind::TypeMismatch,
                     span,
@@ -955,6 +966,7 @@ impl<'a> Runtime<'a> {
                 HostValue::ProcessCommand(command) => match ProcessCommandBuiltin::from_name(field)
                 {
                     Some(command_builtin) => {
+                        Self::check_method_arity(&command_builtin, args, span)?;
                         self.eval_process_command_call(command, command_builtin, args, span)
                     }
                     None => Err(RuntimeError::new_with_extras(
@@ -966,6 +978,7 @@ impl<'a> Runtime<'a> {
                 },
                 HostValue::ProcessResult(result) => match ProcessResultBuiltin::from_name(field) {
                     Some(result_builtin) => {
+                        Self::check_method_arity(&result_builtin, args, span)?;
                         Ok(self.eval_process_result_call(result, result_builtin))
                     }
                     None => Err(RuntimeError::new_with_extras(
@@ -976,13 +989,25 @@ impl<'a> Runtime<'a> {
                     )),
                 },
             },
-            Value::Bool(..) => unimplemented!("Boolean methods not implemented yet"),
-            Value::Null => Err(RuntimeError::new_with_extras(
+            Value::Bool(..) | Value::Null => Err(RuntimeError::new_with_extras(
                 RuntimeErrorKind::TypeMismatch,
                 span,
                 field,
                 GlobalBuiltin::type_of(&receiver),
             )),
+        }
+    }
+
+    /// The resolver checks method arity only when it knows the receiver type.
+    fn check_method_arity(
+        builtin: &impl Builtin,
+        args: &ArgList<'a>,
+        span: Span,
+    ) -> Result<(), RuntimeError> {
+        if args.args.len() == builtin.arity() {
+            Ok(())
+        } else {
+            Err(RuntimeError::new(RuntimeErrorKind::TypeMismatch, span))
         }
     }
 
@@ -1125,7 +1150,10 @@ impl<'a> Runtime<'a> {
             ArrayBuiltin::Join => {
                 let sep = self.eval_expr(args.args[0])?;
                 let Value::Str(sep) = sep else {
-                    unreachable!("Semantic analysis guarantees string arg")
+                    return Err(RuntimeError::new(
+                        RuntimeErrorKind::TypeMismatch,
+                        args.args[0].span(),
+                    ));
                 };
                 let result = ArrayBuiltin::join(array, &sep, self.frame);
                 Ok(Value::Str(ArenaCow::Owned(result)))
@@ -1197,7 +1225,9 @@ impl<'a> Runtime<'a> {
                         let s = StringBuiltin::slice(s, start, end, self.frame);
                         Ok(Value::Str(ArenaCow::Owned(s)))
                     }
-                    _ => unreachable!("Semantic analysis guarantees number args"),
+                    _ => {
+                        Err(RuntimeError::new(RuntimeErrorKind::TypeMismatch, args.args[0].span()))
+                    }
                 }
             }
             StringBuiltin::ToUppercase => {
@@ -1216,7 +1246,9 @@ impl<'a> Runtime<'a> {
                 let needle = self.eval_expr(args.args[0])?;
                 match needle {
                     Value::Str(n) => Ok(Value::Number(StringBuiltin::find(s, &n))),
-                    _ => unreachable!("Semantic analysis guarantees string arg"),
+                    _ => {
+                        Err(RuntimeError::new(RuntimeErrorKind::TypeMismatch, args.args[0].span()))
+                    }
                 }
             }
             StringBuiltin::Replace => {
@@ -1227,7 +1259,9 @@ impl<'a> Runtime<'a> {
                         let result = StringBuiltin::replace(s, &o, &n, self.frame);
                         Ok(Value::Str(ArenaCow::Owned(result)))
                     }
-                    _ => unreachable!("Semantic analysis guarantees string args"),
+                    _ => {
+                        Err(RuntimeError::new(RuntimeErrorKind::TypeMismatch, args.args[0].span()))
+                    }
                 }
             }
             StringBuiltin::ToNumber => Ok(Value::Number(StringBuiltin::to_number(s))),
@@ -1241,7 +1275,9 @@ impl<'a> Runtime<'a> {
                             .for_each(|s| collection.push(Value::Str(ArenaCow::Owned(s))));
                         Ok(Value::Array(collection))
                     }
-                    _ => unreachable!("Semantic analysis guarantees string arg"),
+                    _ => {
+                        Err(RuntimeError::new(RuntimeErrorKind::TypeMismatch, args.args[0].span()))
+                    }
                 }
             }
         }
